@@ -1,6 +1,8 @@
 import UgoVerif.Proofs.CompileEnc
 import UgoVerif.Gen.Limits
 import UgoVerif.Gen.Opcodes
+import UgoVerif.Model.Eval
+import UgoVerif.Proofs.VMRun
 /-
   C05 — Compile is total: bytecode or an error for any input, never a panic.
 
@@ -207,5 +209,27 @@ def C05_full : Prop :=
           (op.toNat = OpJump ∨ op.toNat = OpJumpFalsy ∨ op.toNat = OpAndJump ∨ op.toNat = OpOrJump) →
           Bd bc.main.insts (readBE bc.main.insts (p + 1) 4))
     | .error e => ∀ m, e ≠ .panic m
+
+/-! ### what the VM's prologue needs of compiler output (C06) -/
+
+/-- `MainWF` — the hypothesis of the C06 theorems about `Run` (the prologue slices
+    `stack[:NumLocals]` and indexes `locals[NumParams-1]` outside `recover`) — holds for every VM
+    state into which compiler output is loaded with `SetBytecode`: `NumLocals ≤ 256 ≤ 2048` and
+    `NumParams ≤ NumLocals` by `compile_wf_partial`. -/
+theorem compiled_main_wf (builtins : List (String × Nat)) (disabled : List String) (file : List Stmt)
+    (hok : okSs file = true) (bc : Bytecode) (h : compileFile builtins disabled file = .ok bc)
+    (vm : UgoVerif.VM.State) (oldN : Nat) (modules : Array UgoVerif.VM.V) :
+    UgoVerif.Proofs.VM.MainWF (UgoVerif.Eval.setBytecode vm bc.main oldN bc.constants modules) := by
+  have hwf := compile_wf_partial builtins disabled file hok bc h
+  intro c free hget
+  simp only [UgoVerif.Eval.setBytecode, UgoVerif.Eval.allocFn] at hget ⊢
+  simp only [Array.getElem?_push_size, Option.some.injEq] at hget
+  injection hget with hc _
+  subst hc
+  simp [UgoVerif.Eval.codeOfCFn, UgoVerif.VM.stackSize]
+  have h1 := hwf.1
+  have h2 := hwf.2.1.2
+  unfold maxNumLocals at h1
+  omega
 
 end UgoVerif.Props.C05
